@@ -125,6 +125,14 @@ func planC14(tier string, root *simcore.RNG) *plan {
 		}
 		add(b, "append-self")
 	}
+	// E7: what the path is
+	for _, b := range []string{bs("bin", 2), bs("ascii", 2), bs("bin", 0)} {
+		for _, op := range []string{"as-symlink", "as-directory", "as-devnull", "as-devzero", "as-missing", "odd-name"} {
+			add(b, op)
+		}
+		add(b, "trunc:100", "as-symlink")
+		add(b, "flip:640", "odd-name")
+	}
 	// E6: damage that hits many lines at once (decimal commas, every k-th number)
 	for _, b := range []string{bs("ascii", 8), bs("ascii", 300), bs("ascii", 1500), "shipped:bottle.stl"} {
 		add(b, "decimal-comma")
